@@ -32,7 +32,14 @@ class SimpleGzipDecompressor(object):
         Also checks for errors such as truncated input.
         No other methods may be called on this object after `flush`.
         """
-        return self.decompressobj.flush()
+        data = self.decompressobj.flush()
+
+        if not self.decompressobj.eof:
+            raise zlib.error(
+                'Compressed data ended before the end-of-stream marker '
+                'was reached.')
+
+        return data
 
 
 class GzipDecompressor(SimpleGzipDecompressor):
